@@ -1,4 +1,5 @@
 import Mieru.Proofs.C08
+import Mieru.Proofs.C09
 import Mieru.Gen.Consts
 /-!
 # C08 — clocks within one minute agree on keys; stale segments are refused; cached key
@@ -139,6 +140,35 @@ theorem stale_key_never_tried (s : State (List Int)) (hs : Mieru.Proofs.C08.Stat
   have := Mieru.Proofs.C08.slot_far t d h
   simp only [slotKeys, keyRefreshSec, List.mem_cons, List.not_mem_nil, or_false]
   omega
+
+/-- **The handshake's first segment succeeds under skew.**  A sender at instant `t` seals the
+    first segment of a TCP direction with the key of its current slot and stamps its minute; a
+    receiver whose clock shows `t + d`, |d| ≤ 60 s, tries the keys of its three slots
+    (`saltFromTime` order) and checks the stamp against its own minute.  Then the receiver parses
+    exactly that segment and accepts its timestamp.  `keyOf` maps a slot to its key
+    (PBKDF2 of the slot's salt); the AEAD laws, the low-entropy law (types 10/11 only) and
+    "a different key does not authenticate the sender's first ciphertext" are hypotheses. -/
+theorem handshake_succeeds_under_skew (A : Spec.AeadFns) (hA : Spec.AeadLaws A) (hle : Spec.LELaw)
+    (keyOf : Int → Bytes) (t d : Int) (ht : 0 ≤ t) (htd : 0 ≤ t + d)
+    (h1 : -60000000000 ≤ d) (h2 : d ≤ 60000000000) (n0 : Bytes) (hn : n0.length = 24)
+    (hcommit : ∀ e ∈ saltTimes (t + d), keyOf e ≠ keyOf (epoch t) →
+      ∀ p, A.openF (keyOf e) n0 (A.sealF (keyOf (epoch t)) n0 p) = none)
+    (s : Spec.Segment) (hw : s.wf) (hts : (s.md.timestamp : Int) = minute t) (lePad : Bool)
+    (bytes rest : Bytes) (t' : Spec.Tx)
+    (hs : Spec.tcpSeal A ⟨keyOf (epoch t), n0, false⟩ s lePad = some (bytes, t')) :
+    Spec.parseOne A { Spec.Rx.new ((saltTimes (t + d)).map keyOf) with buf := bytes ++ rest }
+      = .ok (keyOf (epoch t)) s.md s.payload bytes.length t'.nonce ∧
+    tsAccept (minute (t + d)) s.md.timestamp = true := by
+  constructor
+  · refine Spec.tcp_parse_one A hA hle ⟨keyOf (epoch t), n0, false⟩ t' _ ?_ s hw lePad bytes rest hs rfl
+    left
+    refine ⟨rfl, rfl, hn, List.mem_map_of_mem (slot_agreement_keys t d h1 h2), ?_⟩
+    intro k hk hne p
+    simp only [Spec.Rx.new, List.mem_map] at hk
+    obtain ⟨e, he, rfl⟩ := hk
+    exact hcommit e he hne p
+  · rw [hts]
+    exact timestamp_accepted_under_skew t d ht htd h1 h2
 
 /-! ## Non-vacuity and regression examples -/
 
